@@ -558,6 +558,17 @@ func (fr *Frame) sliceOp(st *State, x *ssa.Slice) {
 			hi = fr.val(x.High).T
 		}
 		fr.safe(st, "slice", x.Pos(), "slice bounds in range", "(and (<= 0 "+lo+") (<= "+lo+" "+hi+") (<= "+hi+" (scap "+v.T+")))")
+		if isByteSlice(x.X.Type()) {
+			// byte buffers carry their content as one string (A-BYTES): a proper sub-slice is a buffer of unknown content
+			a := u.get(st, "alloc")
+			nb := u.def("bsub", SInt, a)
+			u.set(st, "alloc", "(+ "+a+" 1)")
+			BS := u.get(st, "BS")
+			whole := "(and (= " + lo + " 0) (= " + hi + " (slen " + v.T + ")))"
+			u.set(st, "BS", store(BS, nb, ite(whole, sel(BS, "(sbase "+v.T+")"), u.fresh("bsubc", SStr))))
+			fr.setVal(st, x, fmt.Sprintf("(mkSlice %s 0 (- %s %s) (- (scap %s) %s))", nb, hi, lo, v.T, lo))
+			return
+		}
 		fr.setVal(st, x, fmt.Sprintf("(mkSlice (sbase %s) (+ (soff %s) %s) (- %s %s) (- (scap %s) %s))", v.T, v.T, lo, hi, lo, v.T, lo))
 	case "arrptr":
 		arr := x.X.Type().Underlying().(*types.Pointer).Elem().Underlying().(*types.Array)
